@@ -95,6 +95,9 @@ def replay_behaviours(behs):
                     la, lo, h = PLACES[p]
                     if d == "None":
                         obj.magnetic_field(la, lo, h, date=None)
+                    elif d == "omitted":
+                        obj.magnetic_field(la, lo, h)          # the date argument left out: today
+                        objdate = "today"
                     else:
                         obj.magnetic_field(la, lo, h, date=real_date(d))
                         objdate = d
